@@ -178,7 +178,7 @@ def run_tlc(module, cfg, workdir, workers=1, env=None, timeout=600, extra=None, 
     return res
 
 
-def design_check(module, cfg, workdir, workers=12, timeout=1500, heap="8g"):
+def design_check(module, cfg, workdir, workers=10, timeout=1500, heap="5g"):
     """Exhaustive design check. A violated invariant here is a defect of the *specification's* algorithm
     (tool error for the purposes of a check), never a verdict about the code."""
     r = run_tlc(module, cfg, workdir, workers=workers, timeout=timeout, heap=heap, extra=["-coverage", "1"])
@@ -187,7 +187,7 @@ def design_check(module, cfg, workdir, workers=12, timeout=1500, heap="8g"):
     return r
 
 
-def generate(module, cfg, workdir, workers=12, timeout=1500, heap="8g", simulate=None):
+def generate(module, cfg, workdir, workers=10, timeout=1500, heap="5g", simulate=None):
     r = run_tlc(module, cfg, workdir, workers=workers, timeout=timeout, heap=heap, simulate=simulate)
     if r["error"] and not (simulate and r["rc"] in (0,)):
         raise ToolError("G %s/%s failed: %s\n%s" % (module, cfg, r["error"], r.get("tail", "")))
@@ -233,6 +233,7 @@ def split_trace(trace, parts, outdir):
 
 
 def validate(trace_module, cfg, trace, workdir, parallel=8, timeout=1800):
+    parallel = min(parallel, int(os.environ.get("VERIF_PAR", "8")))
     """V stage: TLC validates the recorded trace. Returns merged verdict dict
     {viol: [[bid, pred, line]], drift: [...], cnt: {...}, lines, states}."""
     parts = split_trace(trace, parallel, os.path.join(workdir, "parts"))
@@ -242,7 +243,7 @@ def validate(trace_module, cfg, trace, workdir, parallel=8, timeout=1800):
     def one(ix_p):
         ix, (p, n) = ix_p
         r = run_tlc(trace_module, cfg, os.path.join(workdir, "v%03d" % ix), workers=1, env={"TRACE": p},
-                    timeout=timeout, deque=True, heap="3g")
+                    timeout=timeout, deque=True, heap="2g")
         return p, n, r
 
     with ThreadPoolExecutor(max_workers=parallel) as ex:
